@@ -358,7 +358,7 @@ def check(run):
         exprs.append("(run [%s])" % "; ".join(coq_item(s, asts) for s in seq))
     model_vals = None
     if proof_ok:
-        # NB vlib.coq_eval only drains a shard's stdout after coqc exits: keep each shard's output far below the 64 KB pipe buffer
+        # observations are packed into one number per configuration: small outputs, cheap to parse
         model_vals = vlib.coq_eval("c05ev", PREAMBLE, exprs, shard=80)
     run.log("sessions: %d (+%d F17 batches), model evaluated: %s" % (len(sessions), len(f17), model_vals is not None))
 
